@@ -30,6 +30,7 @@ import GgrsModel.Properties.C03
 import GgrsModel.Properties.C04
 import GgrsModel.Proofs.Earliest
 import GgrsModel.Proofs.Session
+import GgrsModel.Proofs.World
 
 namespace Ggrs.SyncLayer
 
@@ -101,5 +102,22 @@ theorem C01_timeline_partial (x y : P2P × TLState) (h0 : ∃ gh, SessInv x.1 gh
   · rcases hcase with hr | ⟨c, ins, hc, hr, hok, _, _⟩
     · exact Or.inl hr
     · exact Or.inr ⟨c, ins, hc, hr, hok⟩
+
+end Ggrs
+
+namespace Ggrs
+
+/-- **C01, game state = serial replay (partial: rollback mode, no sparse saving, no disconnected
+players).** After every interleaving of remote-input arrivals and `advance_frame` calls whose
+requests the game executes in order, the game is at the session's frame and its state is the
+serial replay, from the initial state, of the rows of its timeline — the inputs of the last
+simulation of every frame, which `C01_timeline_partial` shows to be the real inputs wherever they
+have arrived. -/
+theorem C01_state_replay_partial {G : Type} (step : G → List (Input × InputStatus) → G) (g0 : G)
+    (a b : P2P × GS G) (h0 : WInv step g0 a.1 a.2) (hrun : WStar step a b) :
+    b.2.cur = b.1.sync.currentFrame ∧ b.2.g = replay step g0 b.2.R b.2.cur.toNat := by
+  have h := WInv_run step g0 a b h0 hrun
+  obtain ⟨c, _, hc, _, hg⟩ := h.chk
+  exact ⟨hg.cur.trans hc, hg.state⟩
 
 end Ggrs
